@@ -139,9 +139,17 @@ impl QuicConnector {
 
     async fn get_connection(self: &Arc<Self>) -> Result<QuicConn, Error> {
         let mut c = self.connection.lock().await;
+        #[cfg(redproxy_verif)]
+        let was_none = c.is_none();
         if c.is_none() {
             *c = Some(self.create_connection().await?);
         }
+        #[cfg(redproxy_verif)]
+        crate::vtrace::emit(
+            "quic_conn",
+            serde_json::json!({"connector": self.name, "op": if was_none { "create" } else { "reuse" },
+                               "conn": c.as_ref().map(|x| x.0.stable_id())}),
+        );
         Ok(c.clone().unwrap())
     }
 
@@ -149,6 +157,8 @@ impl QuicConnector {
         let mut c = self.connection.lock().await;
         *c = None;
         debug!("{}: connection cleared", self.name);
+        #[cfg(redproxy_verif)]
+        crate::vtrace::emit("quic_conn", serde_json::json!({"connector": self.name, "op": "clear"}));
     }
 
     async fn create_connection(self: &Arc<Self>) -> Result<QuicConn, Error> {
